@@ -1,5 +1,6 @@
 import PW.Proofs.LayoutLemmas
 import PW.Proofs.LayoutWF
+import PW.Proofs.RoutingWF
 /-!
 # C13 — the object graph's bookkeeping is always truthful
 
@@ -78,16 +79,35 @@ theorem WF_route (l : Layout) (c : Nat) (T : List Nat) (h : WF l) : WF (route l 
 theorem combine_keeps_all_subsystems (l : Layout) (c : Nat) (T : List Nat) (h : WF l) :
     (allMembers (combine l c T)).Perm (allMembers l) := combine_members_perm l c T h
 
+theorem WF_reorder (l : Layout) (c : Nat) (T : List Nat) (hT : T.Nodup) (h : WF l) : WF (reorder l c T) :=
+  PW.Layout.WF_reorder l c T hT h
+
+/-- the full routing of `apply_operation` keeps the invariant -/
+theorem WF_operation (l : Layout) (c : Nat) (T fronts : List Nat) (h : WF l) : WF (PW.Routing.actOp l c T fronts) :=
+  PW.Routing.WF_actOp l c T fronts h
+
+theorem WF_resize (l : Layout) (f : Nat) (h : WF l) : WF (PW.Routing.actResize l f) := PW.Routing.WF_actResize l f h
+theorem WF_trace_out (l : Layout) (c : Nat) (T : List Nat) (hT : T.Nodup) (h : WF l) :
+    WF (PW.Routing.ceTraceOut l c T) := PW.Routing.WF_ceTraceOut l c T hT h
+theorem WF_povm_routing (l : Layout) (c : Nat) (T : List Nat) (hT : T.Nodup) (h : WF l) :
+    WF (PW.Routing.cePovm l c T) := PW.Routing.WF_cePovm l c T hT h
+theorem WF_envelope_reorder (l : Layout) (T : List Nat) (hT : T.Nodup) (h : WF l) :
+    WF (PW.Routing.envOrder l T) := PW.Routing.WF_envOrder l T hT h
+
 /-- the invariant holds along every history of combines, routed actions and measurements -/
 inductive Step where
   | combine (c : Nat) (T : List Nat)
   | act (c : Nat) (T : List Nat)
   | measure (M : List Nat)
+  | operation (c : Nat) (T fronts : List Nat)
+  | resize (f : Nat)
 
 def step (l : Layout) : Step → Layout
   | .combine c T => combine l c T
   | .act c T => route l c T
   | .measure M => removeMeasured l M
+  | .operation c T fronts => PW.Routing.actOp l c T fronts
+  | .resize f => PW.Routing.actResize l f
 
 theorem WF_history (l : Layout) (h : WF l) (hist : List Step) : WF (hist.foldl step l) := by
   induction hist generalizing l with
@@ -98,6 +118,8 @@ theorem WF_history (l : Layout) (h : WF l) (hist : List Step) : WF (hist.foldl s
     | combine c T => exact PW.Layout.WF_combine l c T h
     | act c T => exact PW.Layout.WF_route l c T h
     | measure M => exact WF_removeMeasured l M h
+    | operation c T fronts => exact PW.Routing.WF_actOp l c T fronts h
+    | resize f => exact PW.Routing.WF_actResize l f h
 
 /-- the public index derived from the partition: (product-space position, tensor position) -/
 def indexOf (l : Layout) (c x : Nat) : Option (Nat × Nat) :=
@@ -138,3 +160,9 @@ end PW.Props.C13
 #print axioms PW.Props.C13.WF_route
 #print axioms PW.Props.C13.combine_keeps_all_subsystems
 #print axioms PW.Props.C13.WF_history
+#print axioms PW.Props.C13.WF_reorder
+#print axioms PW.Props.C13.WF_operation
+#print axioms PW.Props.C13.WF_resize
+#print axioms PW.Props.C13.WF_trace_out
+#print axioms PW.Props.C13.WF_povm_routing
+#print axioms PW.Props.C13.WF_envelope_reorder
